@@ -10,6 +10,7 @@ Structural clauses decided (DESIGN.md §5 C17):
     the fingerprint is computed from the frames of the buffered bytes by the one-shot function
  R4 the HEADERS payload handed to HPACK honours the frame flags (shared with C16-R1)
 """
+from ..engine import cfg as C
 from ..engine import decision as D
 from ..engine import grammar as G
 from ..engine import paths as PA
@@ -272,6 +273,17 @@ def rule_R2(ctx):
         ctx.check(names == ["settings", "window_update", "priority_frames", "pseudo_header_order"], "R2", "format:part-order", "S|WU|P|PS", "parts are assembled as %s" % names, ctx.loc(gb))
 
 
+def _frames_field_fed(b, S, fr):
+    """`extract(&self.frames)` where self.frames is extended with the parse result of the buffered bytes"""
+    flds = {x[2] for x in T.walk(T.strip(fr)) if x[0] == "field" and isinstance(x[2], str)}
+    for gb, gt in Q.calls(b, ["::extend", "::append"]):
+        ga = Q.call_args(b, S, gb, gt)
+        gf = {x[2] for x in T.walk(ga[0]) if x[0] == "field" and isinstance(x[2], str)}
+        if (flds & gf) and T.has_call(ga[1], "parse_frames_with_offset") and any(x[0] == "field" and x[2] == "buffer" for x in T.walk(ga[1])):
+            return True
+    return False
+
+
 def rule_R3(ctx):
     P = ctx.program
     b = P.method1("Http2FingerprintExtractor", "add_bytes")
@@ -302,7 +314,57 @@ def rule_R3(ctx):
     okf = False
     for blk, t in ex:
         a = Q.call_args(b, S, blk, t)
-        okf = T.has_call(a[0], "parse_frames_with_offset") and any(x[0] == "field" and x[2] == "buffer" for x in T.walk(a[0]))
+        okf = (T.has_call(a[0], "parse_frames_with_offset") and any(x[0] == "field" and x[2] == "buffer" for x in T.walk(a[0]))) or _frames_field_fed(b, S, a[0])
+    # the frames handed to the one-shot function cover the stream from its start: either every call parses from the stream start, or the
+    # frames of earlier calls are kept and extended (parsing only buffer[parsed_offset..] forgets frames completed by earlier chunks)
+    for blk, t in ex:
+        a = Q.call_args(b, S, blk, t)
+        fr = a[0]
+        from_tail = T.has_call(fr, "parse_frames_with_offset") and any(x[0] == "field" and x[2] == "parsed_offset" for x in T.walk(fr))
+        accumulated = any(x[0] == "field" and x[2] not in ("buffer", "parsed_offset", "parser", "fingerprint") and isinstance(x[2], str) for x in T.walk(T.strip(fr))
+                          if x[0] == "field" and any(y[0] == "param" and y[1] == 0 for y in T.walk(x[1])))
+        grows = False
+        if accumulated:
+            for gb, gt in Q.calls(b, ["Vec::<T, A>::extend", "::extend", "::append", "Vec::<T, A>::push", "extend_from_slice"]):
+                ga = Q.call_args(b, S, gb, gt)
+                if any(x[0] == "field" and x[2] not in ("buffer",) and isinstance(x[2], str) and any(y[0] == "param" and y[1] == 0 for y in T.walk(x[1])) for x in T.walk(ga[0])) \
+                        and T.has_call(ga[1], "parse_frames_with_offset") and C.dominates(b, gb, blk):
+                    grows = True
+        whole = (not from_tail) or (accumulated and grows)
+        ctx.check(whole, "R3", "add_bytes:whole-stream",
+                  "the fingerprint is computed over every frame received so far",
+                  "the fingerprint is computed from the frames of buffer[parsed_offset..] only: frames completed by an earlier chunk (a PRIORITY or WINDOW_UPDATE frame that "
+                  "precedes SETTINGS) are missing, so the incremental result differs from the one-shot fingerprint of the same bytes "
+                  "(PRIORITY|SETTINGS split after the first frame gives `..|00|0|` instead of `..|00|3:0:0:201|`)", ctx.loc(b, blk))
+    # offset bookkeeping: the next parse starts where this one stopped = (offset this parse started at) + (bytes it consumed)
+    starts = []
+    for pb, pt in Q.calls(b, "parse_frames_with_offset"):
+        pa = Q.call_args(b, S, pb, pt)
+        for x in T.walk(pa[-1]):
+            if x[0] == "call" and x[1].endswith("::index") and len(x[2]) == 2:
+                r = T.strip(x[2][1])
+                if r[0] == "agg" and (r[2] or "").endswith("ops::RangeFrom"):
+                    starts.append(T.pp(T.canon_value(T.strip(r[4][0]))))
+    nupd = 0
+    for i, j, st in b.iter_stmts():
+        if st["k"] == "assign" and any(isinstance(x, dict) and x.get("n") == "parsed_offset" for x in st["p"]["pr"]):
+            term = T.strip(S.rvalue(st["r"], i, j))
+            if T.fold_int(term) == 0:
+                continue
+            nupd += 1
+            okk = False
+            if term[0] == "call" and term[1].endswith(("saturating_add", "wrapping_add", "checked_add")) and len(term[2]) == 2:
+                a0, a1 = term[2]
+                okk = T.pp(T.canon_value(T.strip(a0))) in starts and T.has_call(a1, "parse_frames_with_offset")
+            elif term[0] == "binop" and term[1].startswith("Add"):
+                okk = T.pp(T.canon_value(T.strip(term[2]))) in starts and T.has_call(term[3], "parse_frames_with_offset")
+            elif term[0] == "field" and T.strip(term[1])[0] == "binop" and T.strip(term[1])[1].startswith("Add"):
+                bt = T.strip(term[1])
+                okk = T.pp(T.canon_value(T.strip(bt[2]))) in starts and T.has_call(bt[3], "parse_frames_with_offset")
+            ctx.check(okk, "R3", "add_bytes:offset-advance@%d" % nupd, "parsed_offset = start of the parsed slice + bytes consumed",
+                      "parsed_offset is advanced to %s, which is not (offset the parsed slice started at) + (bytes consumed): after a skipped preface the next parse starts "
+                      "inside an already consumed frame (24 bytes early) and the extractor never reports" % T.pp(term)[:90], ctx.loc(b, i))
+    ctx.floor("R3", "parsed_offset updates in add_bytes", nupd, 1)
     stored = any(s["k"] == "assign" and any(isinstance(x, dict) and x.get("n") == "fingerprint" for x in s["p"]["pr"]) for _, _, s in b.iter_stmts())
     ctx.check(okf and stored, "R3", "add_bytes:one-shot", "fingerprint = extract_akamai_fingerprint(frames of the buffered bytes), remembered",
               "incremental extractor does not reuse the one-shot extraction over the buffered frames", ctx.loc(b))
@@ -310,6 +372,8 @@ def rule_R3(ctx):
 
 def rule_R4(ctx):
     C16.rule_R1_R2(ctx, "akamai", ("extract_pseudo_header_order", "decode_headers"), "akamai_extractor")
+    # the frame splitter the extractor relies on: header offsets, reserved bit of the stream id masked (stream 0 selectors depend on it)
+    C16.rule_R5(ctx, "R2")
     # re-label: the shared rule records under R1; keep ids stable for this property
     for k, inst in enumerate(ctx.instances):
         if inst[0] == "R1" and inst[1].startswith("akamai_extractor"):
